@@ -41,7 +41,7 @@ def main():
             res["tests"] = t.stdout.strip()[-120:]
         for c in checks:
             t0 = time.time()
-            r = sh("cd /verif && VERIF_REPO=%s VERIF_EVIDENCE_DIR=%s ./check %s --tier %s" % (wt, ev, c, os.environ.get("SEED_TIER", "quick")))
+            r = sh("cd /verif && VERIF_REPO=%s VERIF_EVIDENCE_DIR=%s timeout 1800 ./check %s --tier %s" % (wt, ev, c, os.environ.get("SEED_TIER", "quick")))
             viol = [l for l in r.stdout.splitlines() if l.startswith("VIOLATION") or l.startswith("  key=")]
             res[c] = {"rc": r.returncode, "wall": round(time.time() - t0, 1), "violations": viol[:8]}
             if r.returncode == 2:
